@@ -396,8 +396,23 @@ func c16R5(c *engine.Ctx) {
 	for _, mr := range engine.CallsTo(fn, false, "io.MultiReader") {
 		vs := variadicVals(mr.Common().Args[0])
 		if len(vs) == 2 && engine.Describe(vs[1]) == "p:c" {
-			if nr := engine.FindCallBack(vs[0], "bytes.NewReader"); len(nr) == 1 && strings.HasSuffix(engine.Describe(nr[0].Common().Args[0]), "buf[:]") {
-				okReplay = true
+			if nr := engine.FindCallBack(vs[0], "bytes.NewReader"); len(nr) == 1 {
+				// the whole array the detection bytes were read into (by role, not by name)
+				root, lo, okRoot := sliceRoot(nr[0].Common().Args[0])
+				whole := false
+				if sl, isSl := engine.Unwrap(nr[0].Common().Args[0]).(*ssa.Slice); isSl && okRoot && lo == 0 {
+					hi, isK := engine.ConstInt(sl.High)
+					whole = sl.High == nil || (isK && hi == 4)
+				}
+				filled := false
+				for _, rf := range engine.CallsTo(fn, false, "io.ReadFull") {
+					if r2, _, ok2 := sliceRoot(rf.Common().Args[1]); ok2 && r2 == root && engine.Dominates(rf, mr) {
+						filled = true
+					}
+				}
+				if whole && filled {
+					okReplay = true
+				}
 			}
 		}
 	}
